@@ -146,7 +146,10 @@ def deep_copy_rule(index: RepoIndex, rep, rule: str) -> None:
     b = fc.body()
     xp = fc.node.args.args[0].arg
     good = {f'pickle.loads(pickle.dumps({xp}))', f'copy.deepcopy({xp})', f'deepcopy({xp})'}
-    rep.check(len(b) == 1 and isinstance(b[0], ast.Return) and src(b[0].value) in good,
+    from ..inline import pure_body_expr as _pbe
+    from ..view import deep_copy_of as _dco
+    _fe = _pbe(fc.node)
+    rep.check(_fe is not None and (src(_fe) in good or _dco(index, fc.module, _fe, xp)),
               rule, 'gym_gridverse/utils/fast_copy.py', 'fast_copy', fc.node.lineno,
               src(b[-1]), 'fast_copy is not a plain deep copy of its argument (a cached or '
               'partial copy can hand back the objects of another state, or one object for two '
